@@ -80,6 +80,11 @@ CHECKS["C04"] = ("exploration",
     "For each of the 18 estimators and data shapes (3,1),(4,2),(6,3): the default configuration in five input forms, every configuration with one documented-valid parameter value deviating (13 GEMINI names, instances, None, solver, every batch size 1..n+1, every n_clusters 1..n, kernel/metric menus with parameters/callables/precomputed, ovo, reg, groups, alpha, M, dynamic, n_cuts, temperature, feature_mask, tree limits) and two deviations on coupled axes (all axis pairs in thorough) are fitted for real: no exception, labels_ shape/range, predict_proba rows are probability vectors, predict = argmax = labels_, score = reference GEMINI (oracles/gemini.py) of predict_proba on the given data, n_iter_/optimiser_ reflect max_iter/solver, Kauri labels in range with a tree and score = objective.",
     "Bounded to n<=6, d<=3 and deviation bound 1-2 from a small default configuration.",
     "5/C04")
+CHECKS["C18"] = ("exploration",
+    "bounded-exhaustive enumeration of all row subsets and permutations of small arrays on fitted inductive estimators",
+    "For each of the 15 inductive estimators and a few fitted states, predict/predict_proba on ALL 31 non-empty subsets and ALL 120 permutations of 5 new points and of the 5 training points must return the corresponding rows of the full-array prediction (labels exact, probabilities 1e-12), independent of memory layout, and predict(train)==labels_ (KernelRIM evaluates its kernel against the stored training points).",
+    "5 rows per array; BLAS shape effects tolerated at 1e-12.",
+    "5/C18")
 NOT_APPLICABLE = {}
 
 def main():
